@@ -141,9 +141,20 @@ static Catalogue cat(size_t byte_quick = 600, size_t byte_thorough = 4096)
 }
 
 // prover: role A; verifier: role B.  The verifier role is what every case re-runs on the mutated lines.
+static std::string want_target, want_case, want_part;
+static bool wanted(const std::string &name)
+{
+	if (!want_target.empty() && name != want_target) return false;
+	if (!want_case.empty() && want_case.compare(0, name.size() + 1, name + "/") != 0) return false;
+	if (!want_part.empty() && name.compare(0, want_part.size(), want_part) != 0) return false;
+	return true;
+}
+
 static void add_protocol(const std::string &name, const std::string &seedname, const Role &prover, const Role &verifier,
 	const std::string &prefix = "", const Catalogue *cp = NULL)
 {
+	if (!wanted(name))
+		return;
 	wire::Duplex d;
 	d.sh.wait_limit = 60.0;
 	mcenv::CoinSource csA(SEED, 98), csB(SEED, 99);
@@ -558,8 +569,8 @@ static void fam_tmcg()
 							SchindelhauerTMCG t(kappa, K, Wb);
 							TMCG_Stack<TMCG_Card> s, s2;
 							s.import(s_s);
-							in >> s2;
-							if (!in.good()) return false;
+							std::string line;   // operator>> would allocate a 671 MB line buffer per call; same parser
+							if (!std::getline(in, line) || !s2.import(line)) return false;
 							return t.TMCG_VerifyStackEquality(s, s2, false, *r, in, out);
 						}, "", &C);
 				}
@@ -664,8 +675,8 @@ static void fam_tmcg()
 							SchindelhauerTMCG t(kappa, K, Wb);
 							TMCG_Stack<VTMF_Card> s, s2;
 							s.import(s_s);
-							in >> s2;
-							if (!in.good()) return false;
+							std::string line;
+							if (!std::getline(in, line) || !s2.import(line)) return false;
 							return t.TMCG_VerifyStackEquality(s, s2, false, v.get(), in, out);
 						}, "", &C);
 				}
@@ -965,6 +976,7 @@ int main(int argc, char **argv)
 	run.F.prologue = [&cs]() { cs.reset(SEED, 99); mcenv::cur = &cs; mcenv::set_clock(1700000000); };
 	std::string family = A.get("family", "vtmf");
 	size_t n = (size_t)A.geti("n", 3);
+	want_target = A.get("target", ""), want_case = A.only, want_part = A.get("part", "");   // --part: target name prefix
 	{
 		MuteCerr mute;
 		build_world(n);
